@@ -173,10 +173,8 @@ def ensure_model(ctx):
     with Lock():
         stamp = os.path.join(BUILD, "ocaml", ".stamp")
         h = []
-        for root, _, files in os.walk(COQ):
-            for f in sorted(files):
-                if f.endswith(".v"):
-                    h.append(sha(open(os.path.join(root, f), "rb").read()))
+        for f in MODEL_FILES + ["Extract/Extract.v"]:
+            h.append(sha(open(os.path.join(COQ, f), "rb").read()))
         for f in sorted(os.listdir(os.path.join(VERIF, "ocaml"))):
             h.append(sha(open(os.path.join(VERIF, "ocaml", f), "rb").read()))
         key = sha("".join(h))
